@@ -415,7 +415,13 @@ func (e *env) checkLoaded(l *cstate.LatestBlockState, want *cstate.LatestBlockSt
 		}
 	}
 	ff("LastBlockTime", fmt.Sprint(tmTok(want.LastBlockTime)), fmt.Sprint(tmTok(l.LastBlockTime)))
-	ff("AppHash", want.AppHash.Hex(), l.AppHash.Hex())
+	if want.AppHash != l.AppHash {
+		if h == 0 && want.AppHash == (common.Hash{}) {
+			o.Fail(e.step, "load-genesis-apphash-differs", fmt.Sprintf("height=0 saved=zero loaded=%s", l.AppHash.Hex()))
+		} else {
+			ff("AppHash", want.AppHash.Hex(), l.AppHash.Hex())
+		}
+	}
 	if !want.ConsensusParams.Equal(&l.ConsensusParams) {
 		o.Fail(e.step, "load-params-differ", fmt.Sprintf("height=%d saved=%v loaded=%v", h, want.ConsensusParams, l.ConsensusParams))
 	}
@@ -719,8 +725,10 @@ func runCase(o *out.Out, r *gen.Rand, c int) {
 		panic(err)
 	}
 	// genesis block first (as Genesis.Commit does), then the boot path
-	e.writeBlock(0, t0, 0, common.Hash{})
-	e.o.InOnly(fmt.Sprintf("B 0 %s %d 0 0", bidTok(e.lastID), tmTok(t0)))
+	// (Genesis.Commit stores the genesis state root as the app hash of height 0: non-zero)
+	gapp := common.BytesToHash(r.Bytes(32))
+	e.writeBlock(0, t0, 0, gapp)
+	e.o.InOnly(fmt.Sprintf("B 0 %s %d 0 %s", bidTok(e.lastID), tmTok(t0), bnum(gapp.Bytes())))
 
 	boot := func() bool {
 		// restart: the node's state becomes whatever the store returns
